@@ -7,16 +7,23 @@
 //! pair_upd   via=<direct|factory> i=N fees=<p,s,b|->
 //! trio_inst  via=<direct|factory> fees=p,s,b amp=A tf=<0|1>
 //! trio_upd   via=<direct|factory> i=N fees=<p,s,b|-> ramp=<future_a,future_block|->
-//! vault_inst via=<direct|factory> fees=p,f,b asset=<plain|ibc|factory|twoslash|factorybad|ibc2|cw20> tf=<0|1>
+//! vault_inst via=<direct|factory> fees=p,f,b asset=<plain|ibc|factory|twoslash|factorybad|ibc2|cw20> tf=<0|1> [lp=<stock|lenient>]
+//!            lp=lenient: the LP-token code id handed to the vault (or configured in a second vault factory)
+//!            is a cw20 that accepts ANY symbol — the code id is a deployment parameter; with the stock
+//!            cw20-base a vault over a token-factory asset cannot exist (symbol `uLP-factory/` refused)
 //! vault_upd  via=<direct|factory> i=N fees=<p,f,b|->
 //! dist_inst  grace=G dur=D          dist_upd grace=<G|-> dur=<D|->
-//! lair_inst  growth=R n=N cw20=<0|1>   lair_upd growth=<R|->
+//! lair_inst  growth=R n=N cw20=<0|1> [via=<chain|entry>]   lair_upd growth=<R|->
+//!            via=entry: the lair's entry points are called directly on mock dependencies (no chain
+//!            around them): cw-multi-test 0.16 refuses responses with an empty attribute value, which
+//!            hides what `instantiate` does with an empty bonding-asset list
 //! coll_inst                          coll_upd take=<R|->
 //! advance N
 //! ```
 //! Observation = outcome + canonical dump of every stored Config (`p0=… t0=… v0=… d=… l=… c=…`).
 use crate::common::*;
-use cosmwasm_std::{Addr, Coin, Decimal, Uint64};
+use cosmwasm_std::testing::{mock_dependencies, mock_env, mock_info, MockApi, MockQuerier, MockStorage};
+use cosmwasm_std::{Addr, Coin, Decimal, Order, OwnedDeps, Storage, Uint64};
 use cw_multi_test::{App, AppBuilder, BankKeeper, ContractWrapper, Executor};
 use white_whale_std::epoch_manager::epoch_manager::EpochConfig;
 use white_whale_std::fee::{Fee, VaultFee};
@@ -84,8 +91,31 @@ impl Class {
     }
 }
 
+type EntryDeps = OwnedDeps<MockStorage, MockApi, MockQuerier>;
+
+fn copy_storage(s: &MockStorage) -> MockStorage {
+    let mut n = MockStorage::new();
+    for (k, v) in s.range(None, None, Order::Ascending) {
+        n.set(&k, &v);
+    }
+    n
+}
+
+/// a cw20 LP-token code that accepts any symbol / name (the stock code otherwise)
+fn lenient_token_instantiate(
+    deps: cosmwasm_std::DepsMut,
+    env: cosmwasm_std::Env,
+    info: cosmwasm_std::MessageInfo,
+    mut msg: white_whale_std::pool_network::token::InstantiateMsg,
+) -> Result<cosmwasm_std::Response, cw20_base::ContractError> {
+    msg.symbol = "uLP".into();
+    msg.name = "lenient lp".into();
+    terraswap_token::contract::instantiate(deps, env, info, msg)
+}
+
 struct Ids {
     token: u64,
+    lenient: u64,
     pair: u64,
     trio: u64,
     vault: u64,
@@ -100,6 +130,12 @@ struct W {
     admin: Addr,
     pfac: Addr,
     vfac: Addr,
+    /// a second vault factory whose LP-token code is the lenient one
+    vfac2: Addr,
+    /// the lair driven at entry-point level (`lair_inst via=entry`); at most one of `lair`, `lair_entry`
+    lair_entry: Option<EntryDeps>,
+    /// vaults created through `vfac2`
+    lenient_vaults: Vec<Addr>,
     pairs: Vec<(Addr, bool)>,
     trios: Vec<(Addr, bool)>,
     vaults: Vec<(Addr, bool, Class, String)>,
@@ -131,6 +167,11 @@ impl W {
         let token = app.store_code(Box::new(ContractWrapper::new(
             terraswap_token::contract::execute,
             terraswap_token::contract::instantiate,
+            terraswap_token::contract::query,
+        )));
+        let lenient = app.store_code(Box::new(ContractWrapper::new(
+            terraswap_token::contract::execute,
+            lenient_token_instantiate,
             terraswap_token::contract::query,
         )));
         let pair = app.store_code(Box::new(
@@ -229,12 +270,30 @@ impl W {
                 None,
             )
             .unwrap();
+        let vfac2 = app
+            .instantiate_contract(
+                vfac_id,
+                admin.clone(),
+                &vf::InstantiateMsg {
+                    owner: admin.to_string(),
+                    vault_id: vault,
+                    token_id: lenient,
+                    fee_collector_addr: "collector".into(),
+                },
+                &[],
+                "vfac2",
+                None,
+            )
+            .unwrap();
         W {
             app,
-            ids: Ids { token, pair, trio, vault, dist, lair, coll },
+            ids: Ids { token, lenient, pair, trio, vault, dist, lair, coll },
             admin,
             pfac,
             vfac,
+            vfac2,
+            lair_entry: None,
+            lenient_vaults: vec![],
             pairs: vec![],
             trios: vec![],
             vaults: vec![],
@@ -380,11 +439,13 @@ impl W {
             mon.check("C18", "config_ok_vault_no_burn_on_factory_asset", !tf_asset || b == 0, || {
                 format!("vault {a} over {denom} stores burn fee {b}")
             });
+            // stronger than the property, what the code itself aims at (`has_factory_token` also classes
+            // any denom with two slashes as a factory token): a stat, not a monitor
             if *class == Class::Ibc2 && b > 0 {
-                // recorded observation, not the property: is_factory_token() classes this denom as a
-                // factory token; instantiate insists on burn = 0, update_config (which looks at the LP
-                // asset) does not
-                mon.stat("obs_code_classed_factory_denom_got_burn_fee_via_update");
+                mon.stat("obs_code_classed_factory_denom_stores_burn_fee");
+            }
+            if tf_asset {
+                mon.stat("vault_over_token_factory_asset_observed");
             }
             out.push(format!("v{i}={p}/{f}/{b}"));
         }
@@ -398,9 +459,15 @@ impl W {
             }
             None => out.push("d=-".into()),
         }
-        match &self.lair {
-            Some(a) => {
-                let c: wl::Config = q.query_wasm_smart(a, &wl::QueryMsg::Config {}).unwrap();
+        let lair_cfg: Option<wl::Config> = match (&self.lair, &self.lair_entry) {
+            (Some(a), _) => Some(q.query_wasm_smart(a, &wl::QueryMsg::Config {}).unwrap()),
+            (None, Some(deps)) => Some(
+                cosmwasm_std::from_json(whale_lair::contract::query(deps.as_ref(), mock_env(), wl::QueryMsg::Config {}).unwrap()).unwrap(),
+            ),
+            (None, None) => None,
+        };
+        match lair_cfg {
+            Some(c) => {
                 let r = c.growth_rate.atomics().u128();
                 let natives = c.bonding_assets.iter().filter(|x| matches!(x, AssetInfo::NativeToken { .. })).count();
                 mon.check("C18", "config_ok_growth_rate", r <= E18, || format!("lair stores growth rate {r}"));
@@ -712,6 +779,12 @@ impl Config {
                 let fees = triple(kv(ws, "fees")?)??;
                 let class = Class::parse(kv(ws, "asset")?)?;
                 let tf = kv(ws, "tf")? == "1";
+                let lenient = match kv(ws, "lp") {
+                    None | Some("stock") => false,
+                    Some("lenient") => true,
+                    _ => return None,
+                };
+                let (fac, token_id) = if lenient { (w.vfac2.clone(), w.ids.lenient) } else { (w.vfac.clone(), w.ids.token) };
                 let asset = w.prep_asset.take()?;
                 let denom = match &asset {
                     AssetInfo::NativeToken { denom } => denom.clone(),
@@ -720,14 +793,18 @@ impl Config {
                 if via {
                     let r = ex(w.app.execute_contract(
                         admin,
-                        w.vfac.clone(),
+                        fac.clone(),
                         &vf::ExecuteMsg::CreateVault { asset_info: asset.clone(), fees: vfee(fees), token_factory_lp: tf },
                         &[],
                     ));
                     if r.is_ok() {
                         let a: Option<String> =
-                            w.app.wrap().query_wasm_smart(&w.vfac, &vf::QueryMsg::Vault { asset_info: asset }).unwrap();
-                        w.vaults.push((Addr::unchecked(a.unwrap()), true, class, denom));
+                            w.app.wrap().query_wasm_smart(&fac, &vf::QueryMsg::Vault { asset_info: asset }).unwrap();
+                        let a = Addr::unchecked(a.unwrap());
+                        if lenient {
+                            w.lenient_vaults.push(a.clone());
+                        }
+                        w.vaults.push((a, true, class, denom));
                     }
                     r
                 } else {
@@ -737,7 +814,7 @@ impl Config {
                         &vault::InstantiateMsg {
                             owner: admin.to_string(),
                             asset_info: asset,
-                            token_id: w.ids.token,
+                            token_id,
                             vault_fees: vfee(fees),
                             fee_collector_addr: "collector".into(),
                             token_factory_lp: tf,
@@ -766,9 +843,10 @@ impl Config {
                     new_fee_collector_addr: None,
                 };
                 if via {
+                    let fac = if w.lenient_vaults.contains(&addr) { w.vfac2.clone() } else { w.vfac.clone() };
                     ex(w.app.execute_contract(
                         admin,
-                        w.vfac.clone(),
+                        fac,
                         &vf::ExecuteMsg::UpdateVaultConfig { vault_addr: addr.to_string(), params },
                         &[],
                     ))
@@ -831,36 +909,54 @@ impl Config {
                     let l = assets.len();
                     assets[l - 1] = AssetInfo::Token { contract_addr: "sometoken".into() };
                 }
-                let res = w.app.instantiate_contract(
-                    w.ids.lair,
-                    admin,
-                    &wl::InstantiateMsg { unbonding_period: Uint64::new(1_000_000), growth_rate: Decimal::raw(r), bonding_assets: assets },
-                    &[],
-                    "lair",
-                    None,
-                );
-                if let Ok(a) = &res {
-                    w.lair = Some(a.clone());
+                let msg = wl::InstantiateMsg { unbonding_period: Uint64::new(1_000_000), growth_rate: Decimal::raw(r), bonding_assets: assets };
+                match kv(ws, "via") {
+                    None | Some("chain") => {
+                        let res = w.app.instantiate_contract(w.ids.lair, admin, &msg, &[], "lair", None);
+                        if let Ok(a) = &res {
+                            w.lair = Some(a.clone());
+                            w.lair_entry = None;
+                        }
+                        ex(res)
+                    }
+                    Some("entry") => {
+                        let mut deps = mock_dependencies();
+                        match whale_lair::contract::instantiate(deps.as_mut(), mock_env(), mock_info("admin", &[]), msg) {
+                            Ok(_) => {
+                                w.lair_entry = Some(deps);
+                                w.lair = None;
+                                Ok(())
+                            }
+                            Err(e) => Err(e.to_string()),
+                        }
+                    }
+                    _ => return None,
                 }
-                ex(res)
             }
             "lair_upd" => {
                 let r: Option<u128> = opt_u(kv(ws, "growth")?)?;
+                let msg = wl::ExecuteMsg::UpdateConfig {
+                    owner: None,
+                    unbonding_period: None,
+                    growth_rate: r.map(Decimal::raw),
+                    fee_distributor_addr: None,
+                };
+                if let Some(deps) = w.lair_entry.as_mut() {
+                    // no chain around the entry point: emulate the transaction's atomicity
+                    let backup = copy_storage(&deps.storage);
+                    return Some(match whale_lair::contract::execute(deps.as_mut(), mock_env(), mock_info("admin", &[]), msg) {
+                        Ok(_) => Ok(()),
+                        Err(e) => {
+                            deps.storage = backup;
+                            Err(e.to_string())
+                        }
+                    });
+                }
                 let addr = match &w.lair {
                     Some(a) => a.clone(),
                     None => return Some(Err("no lair".into())),
                 };
-                ex(w.app.execute_contract(
-                    admin,
-                    addr,
-                    &wl::ExecuteMsg::UpdateConfig {
-                        owner: None,
-                        unbonding_period: None,
-                        growth_rate: r.map(Decimal::raw),
-                        fee_distributor_addr: None,
-                    },
-                    &[],
-                ))
+                ex(w.app.execute_contract(admin, addr, &msg, &[]))
             }
             "coll_inst" => {
                 let r = w.app.instantiate_contract(w.ids.coll, admin, &fc::InstantiateMsg {}, &[], "coll", None);
@@ -1117,7 +1213,8 @@ impl Engine for Config {
                     if rng.chance(1, 2) {
                         f.2 = 0;
                     }
-                    format!("vault_inst via={} fees={} asset={} tf={}", via(rng), Self::fees_str(f), class.name(), tf(rng))
+                    let lp = if rng.chance(if class == Class::Factory { 2 } else { 1 }, 4) { "lenient" } else { "stock" };
+                    format!("vault_inst via={} fees={} asset={} tf={} lp={lp}", via(rng), Self::fees_str(f), class.name(), tf(rng))
                 }
                 8 | 9 if !w.vaults.is_empty() => {
                     let i = rng.below(w.vaults.len() as u64) as usize;
@@ -1157,9 +1254,13 @@ impl Engine for Config {
                 13 => {
                     let r = *rng.pick(&[0u128, 1, E18 - 1, E18, E18 + 1, E18 / 10, u128::MAX, 2 * E18]);
                     let n = *rng.pick(&[0u64, 1, 2, 2, 3, 4]);
-                    format!("lair_inst growth={r} n={n} cw20={}", if rng.chance(1, 8) { 1 } else { 0 })
+                    format!(
+                        "lair_inst growth={r} n={n} cw20={} via={}",
+                        if rng.chance(1, 8) { 1 } else { 0 },
+                        if rng.chance(1, 2) { "entry" } else { "chain" }
+                    )
                 }
-                14 if w.lair.is_some() => {
+                14 if w.lair.is_some() || w.lair_entry.is_some() => {
                     let r = *rng.pick(&[0u128, 1, E18 - 1, E18, E18 + 1, E18 / 10, u128::MAX, 2 * E18]);
                     format!("lair_upd growth={}", if rng.chance(1, 8) { "-".to_string() } else { r.to_string() })
                 }
